@@ -615,7 +615,8 @@ function describeIndexObjectMember(
   key: Runtype,
   value: Runtype,
 ): { docText?: string; member: string } {
-  return describeObjectMember(ctx, `[K in ${describeTypeExpr(ctx, key)}]`, value);
+  // an index signature, so that it can stand next to named properties (a mapped type member cannot)
+  return describeObjectMember(ctx, `[key: ${describeTypeExpr(ctx, key)}]`, value);
 }
 
 function renderObjectMember(member: { docText?: string; member: string }): string {
